@@ -791,7 +791,7 @@ def rule_ladder(ctx, R="R-C12-LADDER"):
     g = [canon_le(fc) for fc in e.facts]
     g = [c for c in g if c is not None]
     # guard n - s0^2 <= -1  <=>  n < s0^2
-    if not (len(g) == 1 and (g[0][0] - (n - s0 * s0)).is_zero() and g[0][1] == -1):
+    if not (len(g) == 1 and (g[0][0] - n).is_zero() and g[0][1] == s0 * s0 - 1):
       okg = False
       dg = "insufficient-data guard is not n < %d" % (s0 * s0)
   if okg and not ok and len(cond) == 1 and (cond[0][0] - want).is_zero() and cond[0][1] < 0:
